@@ -203,6 +203,15 @@ impl UnkHandler {
     /// Do NOT make this function public to maintain consistency in
     /// the connection-id mapping among members of `Dictionary`.
     /// The consistency is managed in `Dictionary`.
+    #[cfg(vibrato_verif)]
+    pub(crate) fn verif_count(&self, cate_id: u32) -> usize {
+        let i = usize::from_u32(cate_id);
+        match (self.offsets.get(i), self.offsets.get(i + 1)) {
+            (Some(s), Some(e)) => e - s,
+            _ => 0,
+        }
+    }
+
     pub fn map_connection_ids(&mut self, mapper: &ConnIdMapper) {
         for e in &mut self.entries {
             e.left_id = mapper.left(e.left_id);
